@@ -22,13 +22,16 @@ def P(props, families, text=None, note=COMMON_NOTE, **kw):
 
 PROPS = {
     "C01": P("Props/C01.v", [("pool-scn", 48, 600), ("chain-pool", 24, 300), ("fault-scn", 16, 200)],
-        "PARTIAL. Proved per handler for all inputs: the flow of funds between reserves and messages (swap and every router hop: "
-        "whole offer in, exactly return + protocol + burn out; multi-asset deposit: every attached coin added to its reserve, "
-        "only freshly minted LP leaves, to the receiver or via the pool manager to the farm manager; withdrawal: sends exactly the "
-        "refunds it subtracts, burns exactly the LP received; rejected operations change nothing). NOT proved: the inductive "
-        "invariant 'bank balance >= sum of reserves' over all histories. It is decided on every run on the implementation's own "
-        "snapshots by the Coq-defined monitor mon_C01 (after every operation of every generated history, pools sharing denoms, LP "
-        "denoms used as pool assets, donations, odd single-asset deposits, routes, faults) plus the correspondence of all balances.",
+        "PROOF of the backing invariant over all histories: per-message accounting for every pool-manager message, sender and "
+        "funds (reserves' + what the emitted messages take out <= reserves + attached funds, per denom: pm_execute_accounted), "
+        "then induction over the chain interpreter (process_pool: arbitrary call trees, the swap -> reply -> deposit chain of "
+        "single-asset provisions with its buffer, locked deposits calling the farm manager, rejected operations, injected bank "
+        "faults): in every world reachable from genesis, for every denom, sum of the reserves of all pools <= the pool manager's "
+        "bank balance (C01_backed_in_every_reachable_world). Assumes no transaction is signed by the pool manager's own address "
+        "and configured creation fees < 2^127. PARTIAL only for the two side clauses (excess comes only from donations / the odd "
+        "unit; only minimum-liquidity LP is held): those are not theorems. The inequality is also evaluated on the "
+        "implementation's snapshots by the Coq monitor mon_C01 after every operation of every generated history (pools sharing "
+        "denoms, LP denoms used as pool assets, donations, odd single-asset deposits, routes, faults).",
         monitor="mon_C01"),
     "C02": P("Props/C02.v", [("pool-scn", 48, 600), ("chain-pool", 32, 400)],
         "Constant product: proved (mint = min of the two proportional shares, never more than proportional in either asset, hence "
